@@ -369,6 +369,86 @@ def c_fft(ctx, case):
         ctx.count("ifft_calls")
 
 
+@check("C19.fftreal")
+def c_fftreal(ctx, case):
+    """Real input (float64 samples, as measured data are) and no complex_dtype given: fft, and
+    the inverse transform called on its own, still are the DFT definition."""
+    n, seed = case
+    import warnings
+    rng = ctx.sub_rng("fftreal", n, seed)
+    x = np.array([rng.uniform(-1, 1) for _ in range(n)], dtype=np.float64)
+    norm = math.sqrt(sum(abs(v) ** 2 for v in x)) or 1.0
+    tol = 1e-10 * n * norm
+    for name, fn, want in (("fft", lambda: fft(x.copy()), dft(list(x), 1)),
+                           ("fft(sign=-1)", lambda: fft(x.copy(), sign=-1), dft(list(x), -1)),
+                           ("ifft", lambda: ifft(x.copy()), [v / n for v in dft(list(x), -1)]),
+                           ("ifft(complex128 given)", lambda: ifft(x.copy(), complex_dtype=np.complex128),
+                            [v / n for v in dft(list(x), -1)])):
+        ctx.case(None)
+        ctx.count("real_input_transforms")
+        try:
+            with warnings.catch_warnings():
+                warnings.simplefilter("ignore")
+                got = fn()
+        except Exception as ex:  # noqa: BLE001
+            ctx.fail("C19.fftreal", case, f"real:{name}:raised:{type(ex).__name__}",
+                     f"{name} of {n} float64 samples raised {type(ex).__name__}: {ex}")
+            continue
+        if len(got) != n or max(abs(complex(a) - b) for a, b in zip(got, want)) > tol:
+            err = max(abs(complex(a) - b) for a, b in zip(got, want)) if len(got) == n else None
+            ctx.fail("C19.fftreal", case, f"real:{name}:" + (f"n={n}" if n < 10 else f"factors={find_factors(n)}"),
+                     f"{name} of {n} real (float64) samples differs from the DFT definition by {err} "
+                     f"(tolerance {tol})")
+
+
+@check("C19.polyself")
+def c_polyself(ctx, case):
+    """ONE polynomial object as both operands (p * p, divmod(p, p), p - p): the value of the
+    result is the operation on the value with itself."""
+    (da,) = case
+    A = Polynomial(X, tuple(da))
+    pts = [F(2), F(-1), F(1, 2), F(3)]
+    ops = [("+", lambda: A + A, lambda a: a + a), ("-", lambda: A - A, lambda a: a - a),
+           ("*", lambda: A * A, lambda a: a * a)]
+    for name, f, g in ops:
+        ctx.case(None)
+        ctx.count("poly_same_object_ops")
+        try:
+            R = f()
+        except Exception as ex:  # noqa: BLE001
+            ctx.fail("C19.polyself", case, f"self:raised:{name}:{type(ex).__name__}",
+                     f"A {name} A with A = {da} raised {type(ex).__name__}: {ex}")
+            continue
+        for xv in pts:
+            want = g(pval(da, xv))
+            got = refsem.outcome(lambda: peval_lib(R, xv))
+            if got[0] != "v" or got[1] != want:
+                ctx.fail("C19.polyself", case, f"self:homomorphism:{name}",
+                         f"A {name} A with the one object A = {da}: the result {getattr(R, 'data', R)} "
+                         f"at x={xv} is {short(got)}, the operation on the value gives {want}")
+                break
+    if not da:
+        return
+    for name, f in (("divmod", lambda: divmod(A, A)), ("// and %", lambda: (A // A, A % A))):
+        ctx.case(None)
+        ctx.count("poly_same_object_ops")
+        try:
+            Q, R = f()
+        except Exception as ex:  # noqa: BLE001
+            ctx.fail("C19.polyself", case, f"self:raised:{name}:{type(ex).__name__}",
+                     f"{name} of A by A with A = {da} raised {type(ex).__name__}: {ex}")
+            continue
+        for xv in pts:
+            a = pval(da, xv)
+            q, r = refsem.outcome(lambda: peval_lib(Q, xv)), refsem.outcome(lambda: peval_lib(R, xv))
+            if q[0] != "v" or r[0] != "v" or q[1] != 1 or r[1] != 0:
+                ctx.fail("C19.polyself", case, f"self:{name}",
+                         f"{name} of the one object A = {da} by itself: quotient {getattr(Q, 'data', Q)} "
+                         f"(value {short(q)} at {xv}), remainder {getattr(R, 'data', R)} (value "
+                         f"{short(r)}); A = 1*A + 0")
+                break
+
+
 @check("C19.symfft")
 def c_symfft(ctx, case):
     n, sign, seed = case
@@ -804,6 +884,10 @@ def workload(ctx):
                 ctx.case(("fft", n, sign), n >= 2, n=0)
                 ctx.run("C19.fft", (n, sign, ctx.seed))
     ctx.set_exhaustive("fft lengths 1..64")
+    for n in lengths:
+        if ctx.mine("fftreal"):
+            ctx.case(("fftreal", n), n >= 2, n=0)
+            ctx.run("C19.fftreal", (n, ctx.seed))
     for n in list(range(1, ctx.pick(13, 33))) + [25]:
         for sign in (1, -1):
             if ctx.mine("symfft"):
@@ -817,6 +901,13 @@ def workload(ctx):
         if ctx.mine("polyspecial"):
             ctx.case(("poly", da, db), True, n=0)
             ctx.run("C19.poly", (da, db, 2))
+            ctx.run("C19.polyself", (da,))
+            ctx.run("C19.polyself", (db,))
+    for i in range(ctx.per_shard(ctx.pick(200, 4000))):
+        r2 = ctx.sub_rng("polyself", i)
+        da = rand_poly(r2, 4, r2.random() < 0.5)
+        ctx.case(("polyself", da), bool(da), n=0)
+        ctx.run("C19.polyself", (da,))
     for i in range(ctx.per_shard(ctx.pick(1500, 30000))):
         frac = rng.random() < 0.3
         da, db = rand_poly(rng, 4, frac), rand_poly(rng, 3, frac)
@@ -857,6 +948,8 @@ def workload(ctx):
     ctx.floor("poly_augmented", 3000)
     ctx.floor("poly_kind_rewrites", 150)
     ctx.floor("poly_divmod_spellings", 1000)
+    ctx.floor("poly_same_object_ops", 500)
+    ctx.floor("real_input_transforms", 200)
     ctx.floor("big_polynomial_term_pairs", 50000)
     ctx.floor("poly_mapped", 1000)
     ctx.floor("quotient_nodes", 2000)
